@@ -237,6 +237,15 @@ def _ovl4_region(case):
             and int(case.get("frames", 0)) >= 25)
 
 
+def _hl1_short_region(case):
+    """fifth deadlock family: a 2-layer hierarchy (hierarchical_levels=1) with presets 0..5 and a stream of exactly 2
+    (presets 0..5) or 4 (presets 0..4) pictures never delivers a packet (sweep preset 0..8 x hl 0..3 x N 1..16 at 64x64,
+    lp 4: these are the only hanging cells; overlays / rate control / lp do not matter)"""
+    n = int(case.get("frames", 0))
+    m = int(case.get("cfg.enc_mode", 8))
+    return int(case.get("cfg.hierarchical_levels", 4)) == 1 and ((n == 2 and m <= 5) or (n == 4 and m <= 4))
+
+
 def _ipmg_region(case):
     """second deadlock family: <= 2 logical processors and an intra period that is a whole number of mini-GOPs
     (the configuration the API header recommends); send_picture blocks for ever on the input pool after ~16 pictures,
@@ -257,7 +266,7 @@ def known_hang_region(case):
     still run them (short watchdog); the others skip them because they cannot be judged there."""
     try:
         n = int(case.get("frames", 0))
-        return (_hl5_region(case) and n >= 32) or _hl5_long_region(case) or _ovl4_region(case) or (_ipmg_region(case) and n >= 10) or (_sbcol_region(case) and n >= 1)
+        return (_hl5_region(case) and n >= 32) or _hl5_long_region(case) or _ovl4_region(case) or _hl1_short_region(case) or (_ipmg_region(case) and n >= 10) or (_sbcol_region(case) and n >= 1)
     except ValueError:
         return False
 
@@ -270,6 +279,8 @@ def hang_sig(case):
             return "hl5+lp<=15+frames>=67"
         if _ovl4_region(case):
             return "hl4+overlays+frames>=25"
+        if _hl1_short_region(case):
+            return "hl1+preset<=5+frames2or4"
         if _ipmg_region(case):
             return "lp<=2+intra-period-whole-minigops"
         if _sbcol_region(case):
